@@ -59,6 +59,7 @@ def main(argv=None):
     if args.replay:
         return replay_file(prop, args.replay)
 
+    os.environ["VF_TIER"] = tier   # read by the contracts when they are imported (thorough-only cases)
     from vf import contracts_all  # noqa: F401
     known = load_json(os.path.join(VERIF, "known_findings.json"), {"findings": [], "fixed": []})
     ledger = load_json(os.path.join(VERIF, "obligations.lock.json"), {})
